@@ -11,11 +11,13 @@ import (
 // concurrently running garbage collector, which may then free objects that are still referenced.
 func copyTyped(tp reflect.Type, src, dst unsafe.Pointer) {
 	reflect.NewAt(tp, dst).Elem().Set(reflect.NewAt(tp, src).Elem())
+	verifOnTyped("typedcopy", dst, src, uint32(tp.Size()))
 }
 
 // zeroTyped zeroes a value of the given type with write barriers.
 func zeroTyped(tp reflect.Type, dst unsafe.Pointer) {
 	reflect.NewAt(tp, dst).Elem().SetZero()
+	verifOnTyped("typedzero", dst, nil, uint32(tp.Size()))
 }
 
 // hasPointers reports whether values of the given type contain pointers.
